@@ -6,7 +6,8 @@
    Memory exhaustion, stack depth and wall-clock time are outside the model. *)
 From Coq Require Import ZArith.
 From TW Require Import Wrap Refill Columns.
-From TW Require Import Partition Bellman SplitBreak InplaceFacts UnfillFacts ColumnsFacts.
+From TW Require Import Custom.
+From TW Require Import Partition Bellman SplitBreak InplaceFacts UnfillFacts ColumnsFacts Pipeline.
 
 Theorem C04_fill_inplace : forall (cw : char -> N) text w, exists t', fill_inplace cw text w = Some t'.
 Proof. exact fill_inplace_some. Qed.
@@ -39,6 +40,21 @@ Theorem C04_wrap_columns : forall cw alnum lbc custom_sp ofit o text columns lef
   wrap cw alnum lbc custom_sp ofit (col_opts cw o columns left mid right) text = None.
 Proof. intros. apply wrap_columns_none_iff_full. Qed.
 
+(* wrap and fill never fail: every byte slice taken during line reassembly is in range and
+   on character boundaries, for every text, width and option combination, for any
+   optimal-fit oracle returning a partition and any valid custom splitter; in particular
+   for the reference oracle and the harness's custom splitter *)
+Theorem C04_wrap_fill : forall cw alnum lbc custom_sp ofit o text,
+  OfitOK ofit -> SplitterOK custom_sp ->
+  wrap cw alnum lbc custom_sp ofit o text <> None /\ fill cw alnum lbc custom_sp ofit o text <> None.
+Proof. intros. split; [apply wrap_total|apply fill_total]; assumption. Qed.
+
+Theorem C04_wrap_fill_reference : forall cw alnum lbc o text,
+  wrap cw alnum lbc custom3 ofit_dp o text <> None /\ fill cw alnum lbc custom3 ofit_dp o text <> None.
+Proof. intros. split; [apply wrap_total_reference|apply fill_total_reference]. Qed.
+
+Print Assumptions C04_wrap_fill.
+Print Assumptions C04_wrap_fill_reference.
 Print Assumptions C04_fill_inplace.
 Print Assumptions C04_unfill.
 Print Assumptions C04_split_words.
